@@ -77,6 +77,11 @@ Definition c13_mon (pre : cache) (p : op) (o : out) (post : cache) : bool :=
   | TryReserve _, OResOverflow | TryReserve _, OResRefused => (capa =? capb) && (nb (tb post) =? nb (tb pre))
   | ShrinkTo n, OUnit => (capa <=? capb) && (if N.max (len pre) n <=? capb then N.max (len pre) n <=? capa else true)
   | ShrinkToFit, OUnit => (capa <=? capb) && (if len pre <=? capb then len pre <=? capa else true)
+  (* automatic growth: when an insertion changes the number of buckets, the new table is the smallest one holding twice
+     the entries that were in the table when it refused the new one (all of the final entries but the new one) *)
+  | Insert _ _, OInsOk _ | TryInsert _ _, OTryOk =>
+      if nb (tb post) =? nb (tb pre) then true
+      else match c2b (N.max (2 * (len post - 1)) 1) with Some b => nb (tb post) =? b | None => false end
   | _, _ => true
   end.
 End Params.
